@@ -2,6 +2,7 @@ package main
 
 import (
 	"fmt"
+	"go/token"
 	"go/types"
 
 	"golang.org/x/tools/go/ssa"
@@ -17,6 +18,9 @@ type ChanObj struct {
 	buf      []Value
 	bufEv    []int // happens-before: send event of each buffered value
 	parkedEv []int
+	parkedAt []*Term // precise time: instant from which a parked value is available (nil = now)
+	period   *Term   // precise ticker: period
+	nextDue  *Term   // precise ticker: instant from which the next tick is available
 	closeEv  int
 	closed   bool
 	parked   []Value // values offered by environment senders blocked on this channel
@@ -87,9 +91,12 @@ func (e *Engine) doRecv(c *ChanObj, elemT types.Type) (Value, bool) {
 		v = c.buf[0]
 		c.buf = c.buf[1:]
 		pop(&c.bufEv)
-		if len(c.parked) > 0 {
+		if len(c.parked) > 0 && (len(c.parkedAt) == 0 || c.parkedAt[0] == nil) {
 			c.buf = append(c.buf, c.parked[0])
 			c.parked = c.parked[1:]
+			if len(c.parkedAt) > 0 {
+				c.parkedAt = c.parkedAt[1:]
+			}
 			if len(c.parkedEv) > 0 {
 				c.bufEv = append(c.bufEv, c.parkedEv[0])
 				c.parkedEv = c.parkedEv[1:]
@@ -98,6 +105,9 @@ func (e *Engine) doRecv(c *ChanObj, elemT types.Type) (Value, bool) {
 	case len(c.parked) > 0:
 		v = c.parked[0]
 		c.parked = c.parked[1:]
+		if len(c.parkedAt) > 0 {
+			c.parkedAt = c.parkedAt[1:]
+		}
 		pop(&c.parkedEv)
 	case c.closed:
 		v = e.zero(elemT)
@@ -274,6 +284,137 @@ func (e *Engine) selectOp(fr *Frame, x *ssa.Select) Value {
 		chs = append(chs, c)
 	}
 	pos := posOf(e.prog, x.Pos())
+	if e.precise {
+		// ---- precise time: readiness of timed cases is decided against the symbolic clock
+		lt := func(a, b *Term) *Term { return e.binopInt(token.LEQ, a, b, 64, true).(*Term) }
+		chosen := -2
+		for iter := 0; iter < 3 && chosen == -2; iter++ {
+			e.clockInit()
+			now := e.path.now
+			var ready []int
+			var wakes []*Term
+			for i, s := range states {
+				c := s.c
+				if c == nil {
+					continue
+				}
+				var cond *Term
+				switch {
+				case s.send:
+					cond = e.tb.Bool(c.sendReady())
+				case c.ticker:
+					if c.stopped || c.nextDue == nil {
+						cond = e.tb.Bool(false)
+					} else {
+						cond = lt(c.nextDue, now)
+						wakes = append(wakes, c.nextDue)
+					}
+				case len(c.buf) > 0 || c.closed:
+					cond = e.tb.Bool(true)
+				case len(c.parked) > 0:
+					if len(c.parkedAt) == 0 || c.parkedAt[0] == nil {
+						cond = e.tb.Bool(true)
+					} else {
+						cond = lt(c.parkedAt[0], now)
+						wakes = append(wakes, c.parkedAt[0])
+					}
+				default:
+					cond = e.tb.Bool(false)
+				}
+				if e.decide(cond, "ready") {
+					ready = append(ready, i)
+				}
+			}
+			switch {
+			case len(ready) > 0:
+				chosen = ready[e.choose(len(ready), "#select")]
+			case !x.Blocking:
+				chosen = -1
+			case len(wakes) == 0:
+				if !e.runHooks(chs, func() bool {
+					for _, s := range states {
+						if s.c != nil && !s.c.ticker && (s.send && s.c.sendReady() || !s.send && s.c.recvReady()) {
+							return true
+						}
+					}
+					return false
+				}) {
+					e.abort("BLOCKED", "select at "+pos)
+				}
+			default:
+				// nothing is ready: time passes until the earliest wake-up (plus at most the latency)
+				nw := e.nondetInt("now", 64, true)
+				e.addPC(lt(now, nw))
+				e.addPC(lt(nw, e.intConstBig(64, true, pow2(62))))
+				var some []*Term
+				for _, w := range wakes {
+					some = append(some, lt(w, nw))
+					lim := w
+					if e.latency != nil {
+						lim = e.binopInt(token.ADD, w, e.latency, 64, true).(*Term)
+					}
+					e.addPC(lt(nw, lim))
+				}
+				e.addPC(e.tb.Or(some...))
+				e.path.now = nw
+				e.tracef("wait")
+			}
+		}
+		if chosen == -2 {
+			e.abort("ENV-HORIZON", "precise select did not settle at "+pos)
+		}
+		res := TupleV{e.intConst(64, int64(chosen)), e.tb.Bool(false)}
+		for _, s := range states {
+			if !s.send {
+				res = append(res, e.zero(s.elem))
+			}
+		}
+		if chosen >= 0 {
+			s := states[chosen]
+			if s.send {
+				e.doSend(s.c, s.val, pos)
+			} else {
+				var v Value
+				ok := true
+				if s.c.ticker {
+					if e.path.ticksLeft == 0 {
+						e.abort("TICK-HORIZON", "tick budget exhausted in select at "+pos)
+					}
+					if e.path.ticksLeft > 0 {
+						e.path.ticksLeft--
+					}
+					s.c.recvs++
+					e.tracef("tick %s", s.c)
+					// the next tick: the first grid point after now (plus jitter)
+					now := e.path.now
+					nd := e.nondetInt("due", 64, true)
+					e.addPC(e.binopInt(token.LSS, now, nd, 64, true).(*Term))
+					lim := e.binopInt(token.ADD, now, s.c.period, 64, true).(*Term)
+					if e.latency != nil {
+						lim = e.binopInt(token.ADD, lim, e.latency, 64, true).(*Term)
+					}
+					e.addPC(lt(nd, lim))
+					s.c.nextDue = nd
+					v = e.timeValue(now)
+				} else {
+					v, ok = e.doRecv(s.c, s.elem)
+				}
+				res[1] = e.tb.Bool(ok)
+				k := 2
+				for i, t := range states {
+					if !t.send {
+						if i == chosen {
+							res[k] = v
+						}
+						k++
+					}
+				}
+			}
+		} else {
+			e.tracef("select default")
+		}
+		return res
+	}
 	readySet := func() (definite []int, maybe []int) {
 		for i, s := range states {
 			if s.c == nil {
